@@ -74,15 +74,15 @@ Theorem C11_reports_no_panic : forall codecs retire_enc (good : report -> Prop),
   is_panic (plugin_reports codecs retire_enc cf seq bs) = false.
 Proof. exact plugin_reports_no_panic. Qed.
 Print Assumptions C11_reports_no_panic.
-(* instance: the three in-repo EVM codecs (options obtained from the definition by any function), outside known
+(* instance: all four in-repo report codecs (EVM premium legacy, ABI-unpacked, streamlined; JSON), outside known
    finding F4 *)
 Theorem C11_reports_no_panic_repo_codecs :
-  forall fmt_legacy fmt_unpacked fmt_streamlined legacy_opts_of unpacked_opts_of streamlined_opts_of retire_enc,
+  forall fmt_legacy fmt_unpacked fmt_streamlined fmt_json digest legacy_opts_of unpacked_opts_of streamlined_opts_of retire_enc seq_for_json,
   (forall va, is_panic (retire_enc va) = false) ->
   forall cf seq bs, bok bs ->
   (forall o r, decode_outcome (c_pver cf) bs = Ok o -> In r (snd (reports_of cf seq o)) ->
      outside_f4 fmt_legacy fmt_unpacked legacy_opts_of unpacked_opts_of r) ->
-  is_panic (plugin_reports (repo_codecs fmt_legacy fmt_unpacked fmt_streamlined legacy_opts_of unpacked_opts_of streamlined_opts_of)
+  is_panic (plugin_reports (repo_codecs fmt_legacy fmt_unpacked fmt_streamlined fmt_json digest legacy_opts_of unpacked_opts_of streamlined_opts_of seq_for_json)
                            retire_enc cf seq bs) = false.
 Proof. intros. apply repo_reports_no_panic; try assumption. exact C11_gen_widths_complete. Qed.
 (* the ABI-encode-unpacked codec, like premium legacy, can only panic in the fee division (F4 region) *)
